@@ -24,6 +24,7 @@ RULE = (
     "byte offset for replies <= 200 bytes (exhaustive); for larger replies all 2-chunk partitions and 3-chunk partitions with one cut inside the "
     "first 24 bytes (quick: second cut every 41st offset); random finer partitions incl. 1-byte dribble; EOF after every prefix length 0..n-1; "
     "both clients. distinct = (reply, cuts, client); non-trivial = a cut inside the 16-byte header, or an EOF point"
+    " Also: after an EOF error a further call on the same client must end (watchdog); 65000-byte replies, sealed and second replies, byte dribble."
 )
 ASSUMPTIONS = [
     "the scripted transport stands in for TCP: recv()/recv_into() return at most the rest of the current chunk, then 0 at EOF",
